@@ -121,8 +121,9 @@ CLAIMS = {
          "flush/sync/ReadAt/DiscardUpto leave the size unchanged in every outcome; ReadAt returns at most size-off bytes); multiapp routes offsets "
          "to chunk off/fileSize at inner offset off%fileSize, Append splits at multiples of fileSize and terminates. Byte CONTENTS of the in-memory part (write buffer): "
          "write/Append of data that fits the free buffer space store exactly the given bytes behind the unflushed window and leave every older byte of the window unchanged, and return the logical offset of the first new byte; "
-         "SetOffset keeps a prefix of the window; readAt/ReadAt return, for every offset at or beyond the flushed file offset, the window byte at that position, also for reads that start in the file part (a defect there was repaired); "
-         "harness: SetOffset back into the file, Append, ReadAt across the rewind point returns the new bytes from the rewind point on, never the file's. "
+         "SetOffset keeps a prefix of the window; readAt: a read that starts in the file part and reaches into the window returns the FIRST window byte at the right position (quantifier-free instance c17c_span1: the clause that exposed a defect, repaired), "
+         "and ReadAt of a range that lies completely in the window is complete and error-free; harness: Append that fits the buffer followed by ReadAt at the returned offset succeeds in full. "
+         "The general clauses (EVERY byte at or beyond the flushed offset is the window byte at that position; rewind-append-read harness) are written and were discharged once but are unstable in solver time: kept as drafts, NOT in force, not claimed. "
          "Not decided: bytes of the FILE part (no ghost file), appends that flush inside the call (size arithmetic only), reopen persistence, compression, remote storage; some valid content obligations are excluded for solver time and listed in the evidence.",
          "DESIGN.md 3 (C17)"),
 }
